@@ -104,4 +104,13 @@ CHECKS = {
               "reports every outcome that is not allowed."),
         design_ref="DESIGN.md section 7 C15",
         note="History-dependence lives in the implementation (cursors, cache, stale data centres), which is why histories are enumerated although the oracle is history-free. Random DC choice sampled by repetition."),
+    "C16": dict(
+        engine="tlc + h-node",
+        technique="TLC exhaustive model checking of Membership.tla + replay of every behaviour on the real watch_membership_changes task and a real WatchStream subscriber",
+        text=("Membership.tla models snapshot sequence -> delta computation -> latest-value channel -> subscriber; TLC checks for every snapshot sequence "
+              "(join, leave, address change, rejoin), subscription point and read placement that a caught-up subscriber holds exactly the live "
+              "membership (modulo the two listed known findings) and that every delta reports departures with the address they had; every behaviour "
+              "is replayed on the real watcher task and a real subscriber, comparing delta contents and the accumulated map."),
+        design_ref="DESIGN.md section 7 C16",
+        note="Known findings C16-late-subscriber and C16-skipped-delta (latest-value channel of deltas) are recorded in known_findings.json; any other mismatch is a violation. Chitchat's own failure detection is outside the model."),
 }
